@@ -13,7 +13,16 @@ import (
 func (x *Exec) doCall(st *State, ins *ssa.Call, site string) {
 	var args []Val
 	for _, a := range ins.Call.Args {
-		args = append(args, x.val(st, a))
+		v := x.val(st, a)
+		if v.A != nil && v.S == "" && v.A.Kind == aHeapField && len(v.A.Path) == 0 {
+			// a pointer into a struct-valued field handed to a callee (&c.opts): modelled as a pointer to a separate,
+			// non-nil object (DESIGN 7: the taking function has an open frame; nothing is claimed about its exit state)
+			ip := x.declConst(st, "ip", x.cx.intSort())
+			x.assume(st, fmt.Sprintf("(not (= %s %s))", ip, x.cx.num(0)))
+			x.notes = append(x.notes, "interior pointer passed to a callee at "+site+": treated as a separate object")
+			v = Val{S: ip, T: v.T}
+		}
+		args = append(args, v)
 	}
 	x.callCommon(st, ins, &ins.Call, args, nil, site, false)
 }
